@@ -7,7 +7,7 @@ unique sender contexts and verifies count, order, context, session handle, comma
 service|0x80.
 """
 from __future__ import annotations
-import socket, struct, threading
+import socket, struct, threading, time
 
 PROPERTY = 'C06'
 META = {
@@ -24,7 +24,7 @@ META = {
 LEVEL = META['level']
 RULE = ('a case = one request frame of a recorded session paired with its reply; distinct by (session script, position); non-trivial = the session had depth >= 2 or mixed failing and succeeding requests')
 ASSUMPTIONS = ['after a reply with non-zero encapsulation status, or Unregister, nothing further is owed on that session']
-REQUIRED = ['session:requests-behind-the-refused-one', 'kind:connection-manager', 'session:half-closed-after-burst', 'handle:other-than-registered', 'sessions', 'requests', 'depth:1', 'depth:2', 'depth:8', 'depth:64', 'depth:400', 'kind:register', 'kind:list_services', 'kind:list_identity', 'kind:list_interfaces',
+REQUIRED = ['routed:histories', 'routed:timed-out-request', 'monitor:routed-reply-answers-its-request', 'session:requests-behind-the-refused-one', 'kind:connection-manager', 'session:half-closed-after-burst', 'handle:other-than-registered', 'sessions', 'requests', 'depth:1', 'depth:2', 'depth:8', 'depth:64', 'depth:400', 'kind:register', 'kind:list_services', 'kind:list_identity', 'kind:list_interfaces',
             'kind:legacy', 'kind:read', 'kind:write', 'kind:cip-failing', 'kind:bundle', 'kind:attribute', 'end:unregister', 'end:unsupported-service', 'end:unroutable',
             'context:all-zero', 'context:embedded-nul', 'monitor:paired', 'server-blocked-in-send']
 TIMEOUT = {'quick': 300, 'thorough': 2400}
@@ -320,6 +320,154 @@ def run_session(ctx, sim, rng, depth):
         sock.close()
 
 
+class _Target:
+    """a second simulator in its own process (the CIP objects of a simulator are process-wide), reached through a relay"""
+
+    def __init__(self):
+        import json, os, subprocess, sys
+        here = os.path.dirname(os.path.dirname(os.path.abspath(__file__)))
+        cmd = [sys.executable, '-m', 'vlib.srvproc', '--switch', '0.005', '--', 'RT=DINT[8]', 'RS=INT[4]']
+        self.p = subprocess.Popen(cmd, cwd=here, stdin=subprocess.PIPE, stdout=subprocess.PIPE, stderr=subprocess.DEVNULL, env=dict(os.environ))
+        line = self.p.stdout.readline().decode()
+        if not line.startswith('ADDRESS'):
+            raise RuntimeError('target simulator did not start: %r' % line)
+        _, host, port = line.split()
+        self.address = (host, int(port))
+
+    def stop(self):
+        try:
+            self.p.stdin.close()
+            self.p.wait(10)
+        except Exception:
+            self.p.kill()
+
+
+def routed(ctx, rng):
+    """Requests that the simulator forwards to another device over a configured route (UCMM route table): every reply still answers
+    its own request -- the request's sender context, its service code with the reply bit, its data -- also after one forwarded
+    request has timed out against a slow target (the request carries its own timeout) and on other sessions."""
+    from vlib import simdrv, reqgen, relay as relaymod, refcodec as rc
+    from cpppo.server.enip import ucmm
+    target = _Target()
+    rl = relaymod.Relay(target.address)
+    sim = None
+    try:
+        ucls = type('UCMM', (ucmm.UCMM,), {'route': {'1/1': '%s:%d' % rl.address}})
+        sim = simdrv.TcpSim(reqgen.argv_of(CFG), extra_kwds={'UCMM_class': ucls})
+        ROUTE = [{'port': 1, 'link': 1}]
+        state = {'RT': [0] * 8, 'RS': [0] * 4}
+        counter = [0]
+
+        def a_request():
+            counter[0] += 1
+            k = counter[0]
+            r = rng.random()
+            if r < 0.3:
+                i, n = rng.randrange(0, 6), rng.choice([1, 2])
+                vals = [k * 10 + j for j in range(n)]
+                return {'path': {'segment': [{'symbolic': 'RT'}, {'element': i}]}, 'write_tag': {'type': 0xC4, 'elements': n, 'data': vals}}, ('w', 'RT', i, vals)
+            if r < 0.55:
+                return {'path': {'segment': [{'symbolic': 'RT'}]}, 'read_tag': {'elements': 8}}, ('r', 'RT', 0, 8)
+            if r < 0.8:
+                # (no Read Tag Fragmented here: forwarded over the last hop the request travels without the 0x52 wrapper, and a bare 0x52
+                # is read as the wrapper by design -- the assumption C04 records)
+                return {'path': {'segment': [{'symbolic': 'RS'}, {'element': 1}]}, 'read_tag': {'elements': 3}}, ('r', 'RS', 1, 3)
+            i = rng.randrange(0, 3)
+            vals = [k % 3000]
+            return {'path': {'segment': [{'symbolic': 'RS'}, {'element': i}]}, 'write_frag': {'type': 0xC3, 'elements': 1, 'offset': 0, 'data': vals}}, ('w', 'RS', i, vals)
+
+        def exchange(cli, req, what, wit, priority=10, ticks=20):
+            """-> True if judged fine, False after a violation, None if the session was ended by the simulator"""
+            cip = rc.enc_request(req)
+            c = struct.pack('<I', counter[0]) + bytes(rng.randrange(256) for _ in range(4))
+            cli.send(rc.rr_frame(rc.enc_unconnected_send(cip, route_path=ROUTE, priority=priority, timeout_ticks=ticks), cli.session, c))
+            fr = cli.recv_frame(30.0)
+            ctx.count('routed:requests')
+            ctx.case(('routed', counter[0], cip), nontrivial=True)
+            if fr is None:
+                ctx.violation('reply-missing', 'forwarded request %r got no reply' % (what,), wit)
+                return False
+            r = rc.dec_frame(fr)
+            if r['sender_context'] != c or r['session_handle'] != cli.session or r['command'] != 0x6F:
+                ctx.violation('reply-with-foreign-context', 'forwarded request %r: reply command 0x%x context %r handle %r' % (what, r['command'], r['sender_context'], r['session_handle']), wit)
+                return False
+            if r['status'] != 0:
+                return None
+            if not r['cip'] or r['cip'][0] != cip[0] | 0x80:
+                ctx.violation('reply-service-code', 'forwarded request %r (service 0x%02x) answered with service 0x%02x: the reply to another request' % (
+                    what, cip[0], r['cip'][0] if r['cip'] else -1), wit)
+                return False
+            rep = rc.dec_reply(r['cip'])
+            if rep['status'] != 0:
+                ctx.violation('forwarded-request-fails', 'forwarded request %r: CIP status 0x%02x' % (what, rep['status']), wit)
+                return False
+            if what[0] == 'w':
+                state[what[1]][what[2]:what[2] + len(what[3])] = what[3]
+            else:
+                k_ = 'read_tag' if 'read_tag' in rep else 'read_frag'
+                want = state[what[1]][what[2]:what[2] + what[3]]
+                if list(rep[k_]['data']) != want:
+                    ctx.violation('forwarded-reply-carries-other-data', 'forwarded read %r returned %r, the target holds %r' % (what, list(rep[k_]['data']), want), wit)
+                    return False
+            ctx.count('monitor:routed-reply-answers-its-request')
+            return True
+
+        wit = {'routed': True}
+        a = simdrv.RawClient(sim.address)
+        a.register()
+        for _ in range(rng.choice([2, 4])):
+            req, what = a_request()
+            ok = exchange(a, req, what, wit)
+            if ok is None:
+                ctx.violation('supported-request-gets-encapsulation-error', 'forwarded request %r refused (no fault injected)' % (what,), dict(wit, request=req))
+            if ok is not True:
+                return
+        # a slow target: its reply to the next forwarded request is kept back beyond the request's own timeout (2**5 * 4 = 128 ms)
+        rl.hold_s2c = True
+        req, what = {'path': {'segment': [{'symbolic': 'RT'}, {'element': 7}]}, 'write_tag': {'type': 0xC4, 'elements': 1, 'data': [4242]}}, ('w', 'RT', 7, [4242])
+        counter[0] += 1
+        cip = rc.enc_request(req)
+        c = b'SLOWSLOW'
+        a.send(rc.rr_frame(rc.enc_unconnected_send(cip, route_path=ROUTE, priority=5, timeout_ticks=4), a.session, c))
+        fr = a.recv_frame(30.0)
+        ctx.count('routed:timed-out-request')
+        if fr is None:
+            ctx.violation('reply-missing', 'a forwarded request whose target does not answer within its timeout got no reply frame at all', wit)
+            return
+        r = rc.dec_frame(fr)
+        if r['sender_context'] != c:
+            ctx.violation('reply-with-foreign-context', 'timed-out forwarded request: reply context %r' % r['sender_context'], wit)
+            return
+        if r['status'] == 0:
+            ctx.violation('unsupported-request-not-refused', 'a forwarded request whose target did not answer was answered with encapsulation status 0', wit)
+            return
+        state['RT'][7] = 4242           # the target did receive and execute it; only its reply was late
+        rl.hold_s2c = False             # ... and now the late reply is on its way
+        time.sleep(0.3)
+        a.close()
+        # later forwarded requests, on new sessions and interleaved between two of them
+        b, c2 = simdrv.RawClient(sim.address), simdrv.RawClient(sim.address)
+        b.register()
+        c2.register()
+        for j in range(rng.choice([4, 6])):
+            req, what = a_request()
+            if j == 0:          # the first one differs in kind from the request that timed out
+                counter[0] += 1
+                req, what = {'path': {'segment': [{'symbolic': 'RT'}]}, 'read_tag': {'elements': 8}}, ('r', 'RT', 0, 8)
+            if exchange(b if j % 2 == 0 else c2, req, what, wit) is not True:
+                if not ctx.violations:
+                    ctx.violation('supported-request-gets-encapsulation-error', 'forwarded request %r refused after an earlier forwarded request had timed out' % (what,), wit)
+                return
+        ctx.count('routed:histories')
+        b.close()
+        c2.close()
+    finally:
+        if sim is not None:
+            sim.stop()
+        rl.close()
+        target.stop()
+
+
 def run(ctx):
     from vlib import simdrv, reqgen
     rng = ctx.rng
@@ -335,6 +483,8 @@ def run(ctx):
             pass
         return conn, addr
     socket.socket.accept = small_buffer_accept
+    for _ in range(1 if ctx.tier == 'quick' else 6):
+        routed(ctx, rng)                # first: bounded; the sessions below run until the soft budget is used up
     sim = simdrv.TcpSim(reqgen.argv_of(CFG))
     try:
         depths = [1, 2, 8, 64, 400]
